@@ -47,24 +47,24 @@ func init() {
 	})
 	addCheck(&CheckSpec{
 		Property: "C11", Level: "exploration", OwnsPanics: true,
-		Rule:   "storelin scenario: 2-4 client goroutines execute random read/write transactions (Value, Exists, Create, Update, Delete in any order and number, then Close) over ids a,b,c and the empty id, heavily contended on one id; mockstore, and badgerstore on real BadgerDB (typed/untyped, prefix empty/set/dotted, BeforeChange veto, wrong-type values); yields between calls and at the instrumented points before/inside/after each database transaction.",
-		Oracle: "(1) porcupine linearizability check of the recorded history (invoke/return stamped with the simulator's event sequence numbers, partitioned by id) against a KV model of the documented contract; Unknown is counted as inconclusive, never reported; (2) call-by-call error contract (Create on existing id fails with an error that is or wraps store.ErrDuplicate; Update/Delete/Value on a missing id with store.ErrNotFound); (3) isolation: no call of another client's transaction on the id returns while a write transaction is open, and for mockstore the real lock is probed with TryLock/TryRLock after every step against the harness's transaction table; (4) callbacks: exactly one OnChange per successful mutation on the caller's task with before equal to the previous after per id, none for failed operations; final reads included in the history.",
-		Scen:   []ScenBudget{{"storelin", 2500, 120000}},
+		Rule:        "storelin scenario: 2-4 client goroutines execute random read/write transactions (Value, Exists, Create, Update, Delete in any order and number, then Close) over ids a,b,c and the empty id, heavily contended on one id; mockstore, and badgerstore on real BadgerDB (typed/untyped, prefix empty/set/dotted, BeforeChange veto, wrong-type values); yields between calls and at the instrumented points before/inside/after each database transaction.",
+		Oracle:      "(1) porcupine linearizability check of the recorded history (invoke/return stamped with the simulator's event sequence numbers, partitioned by id) against a KV model of the documented contract; Unknown is counted as inconclusive, never reported; (2) call-by-call error contract (Create on existing id fails with an error that is or wraps store.ErrDuplicate; Update/Delete/Value on a missing id with store.ErrNotFound); (3) isolation: no call of another client's transaction on the id returns while a write transaction is open, and for mockstore the real lock is probed with TryLock/TryRLock after every step against the harness's transaction table; (4) callbacks: exactly one OnChange per successful mutation on the caller's task with before equal to the previous after per id, none for failed operations; final reads included in the history.",
+		Scen:        []ScenBudget{{"storelin", 2500, 120000}},
 		Assumptions: []string{"jirenius/keylock is replaced by a scheduler-visible stub with the same API and RW semantics", "mockstore transactions are entered only when the harness's own table says they will not block (sync.RWMutex waits are invisible to synctest); the real lock is probed after every step"},
 	})
 	addCheck(&CheckSpec{
 		Property: "C10", Level: "exploration", OwnsPanics: true,
-		Rule:   "storecoh scenario: store.Handler over mockstore and over badgerstore on real BadgerDB; model and collection resources; no transformer / IDTransformer / custom transform (dropping a property, mapping members to references); with and without default; 1-3 rounds in which 1-3 mutator goroutines run create/update/delete transactions (values from primitives, references, soft references, data values; collections over a 3-letter alphabet up to length 4), contended on one id, with yields inside transactions (badgerstore) and at every publish, and gets racing the mutations.",
-		Oracle: "a reference RES client cache (own code) fetches every resource at a quiescent instant, then applies in connection order every event published for the resource during the round (change with delete actions, add/remove with index range checks at application time, create/delete flipping the missing state) and must equal a fresh get at the next quiescent instant; an event that cannot be applied, a missing-state mismatch or stale data is a violation.",
-		Scen:   []ScenBudget{{"storecoh", 2500, 120000}},
+		Rule:        "storecoh scenario: store.Handler over mockstore and over badgerstore on real BadgerDB; model and collection resources; no transformer / IDTransformer / custom transform (dropping a property, mapping members to references); with and without default; 1-3 rounds in which 1-3 mutator goroutines run create/update/delete transactions (values from primitives, references, soft references, data values; collections over a 3-letter alphabet up to length 4), contended on one id, with yields inside transactions (badgerstore) and at every publish, and gets racing the mutations.",
+		Oracle:      "a reference RES client cache (own code) fetches every resource at a quiescent instant, then applies in connection order every event published for the resource during the round (change with delete actions, add/remove with index range checks at application time, create/delete flipping the missing state) and must equal a fresh get at the next quiescent instant; an event that cannot be applied, a missing-state mismatch or stale data is a violation.",
+		Scen:        []ScenBudget{{"storecoh", 2500, 120000}},
 		Assumptions: []string{"mockstore transactions are atomic steps (no yield while its lock is held); interleavings inside transactions are explored on badgerstore with the keylock stub"},
 	})
 	addCheck(&CheckSpec{
 		Property: "C13", Level: "exploration", OwnsPanics: true,
-		Rule:   "index scenario: badgerstore + QueryStore with two indexes on real BadgerDB (prefix empty or set); 1-3 mutator goroutines create/update/delete values whose keys come from a small printable alphabet (including unindexed nil keys, keys that are prefixes of each other, ids of different lengths); the real taskqueue index worker is parked at the start of each index task and after its commit; in query rounds every mutator is frozen between transactions while the index worker stays schedulable, and a query task calls Flush() then Query for generated (index, prefix incl. separator bytes, filter, offset, limit incl. negative and zero, reverse).",
-		Oracle: "result equals the reference: ids of the model values whose key has the prefix and passes the filter, sorted bytewise by (key, id), reversed if asked, then windowed; exact because the mutators are frozen.",
-		Scen:   []ScenBudget{{"index", 2500, 100000}},
-		Probes: []string{"Flush called while an index task is parked"},
+		Rule:        "index scenario: badgerstore + QueryStore with two indexes on real BadgerDB (prefix empty or set); 1-3 mutator goroutines create/update/delete values whose keys come from a small printable alphabet (including unindexed nil keys, keys that are prefixes of each other, ids of different lengths); the real taskqueue index worker is parked at the start of each index task and after its commit; in query rounds every mutator is frozen between transactions while the index worker stays schedulable, and a query task calls Flush() then Query for generated (index, prefix incl. separator bytes, filter, offset, limit incl. negative and zero, reverse).",
+		Oracle:      "result equals the reference: ids of the model values whose key has the prefix and passes the filter, sorted bytewise by (key, id), reversed if asked, then windowed; exact because the mutators are frozen.",
+		Scen:        []ScenBudget{{"index", 2500, 100000}},
+		Probes:      []string{"Flush called while an index task is parked"},
 		Assumptions: []string{"index keys never contain the separator byte 0x00 (prefixes do)"},
 	})
 	addCheck(&CheckSpec{
@@ -75,23 +75,23 @@ func init() {
 	})
 	addCheck(&CheckSpec{
 		Property: "C12", Level: "fault_enumeration", OwnsPanics: true,
-		Rule:   "crash scenario: a sequential workload (create, update, delete, Init with 0-3 seeds, re-Init, RebuildIndexes, Flush, dirty restart) on badgerstore + QueryStore over real BadgerDB with prefix empty, simple or dotted; a crash image (copy of the database directory taken while every goroutine of the bubble is durably blocked) is taken at occurrences of the instrumented points before/inside/after each mutation commit, inside Init, at the start and after the commit of each index task and after RebuildIndexes' drop (quick tier: a seeded sample of occurrences; thorough: every occurrence), plus a torn variant in which an unacknowledged suffix of the value log is zeroed; dirty restarts continue the run on an image.",
-		Oracle: "each image is reopened with a fresh BadgerDB: every id holds the acked model's value, the id with a mutation in flight holds the old or the new value, an interrupted Init is all-or-none with a consistent marker; then the restart procedure (Init with the same seeds, RebuildIndexes) runs on the image: seeds appear exactly when the marker was absent and the id is missing, never again after a completed Init, and every generated index query agrees with the reference scan of the stored values.",
-		Scen:   []ScenBudget{{"crash", 600, 20000}},
+		Rule:        "crash scenario: a sequential workload (create, update, delete, Init with 0-3 seeds, re-Init, RebuildIndexes, Flush, dirty restart) on badgerstore + QueryStore over real BadgerDB with prefix empty, simple or dotted; a crash image (copy of the database directory taken while every goroutine of the bubble is durably blocked) is taken at occurrences of the instrumented points before/inside/after each mutation commit, inside Init, at the start and after the commit of each index task and after RebuildIndexes' drop (quick tier: a seeded sample of occurrences; thorough: every occurrence), plus a torn variant in which an unacknowledged suffix of the value log is zeroed; dirty restarts continue the run on an image.",
+		Oracle:      "each image is reopened with a fresh BadgerDB: every id holds the acked model's value, the id with a mutation in flight holds the old or the new value, an interrupted Init is all-or-none with a consistent marker; then the restart procedure (Init with the same seeds, RebuildIndexes) runs on the image: seeds appear exactly when the marker was absent and the id is missing, never again after a completed Init, and every generated index query agrees with the reference scan of the stored values.",
+		Scen:        []ScenBudget{{"crash", 600, 20000}},
 		Assumptions: []string{"BadgerDB is opened with its default SyncWrites=true; loss of acknowledged but unsynced data and kernel-level disk errors (EIO, ENOSPC) are not simulated (no VFS seam in BadgerDB v1.6.2)", "a copy of the directory while all goroutines are blocked equals the image a process kill leaves; power loss is modelled by zeroing a suffix of the value log beyond the last acknowledged mutation"},
 	})
 	addCheck(&CheckSpec{
 		Property: "C15", Level: "exploration", OwnsPanics: true,
-		Rule:   "queryevent scenario: call handlers start 1-4 query events per run on resources in shared groups; the peer sends query requests (valid, missing query, malformed JSON) at tape-chosen instants relative to expiry: well inside the window, buffered in the subscription channel when the timer fires, after the drain was requested, more than the channel holds at once; callbacks reply with model/collection/events/errors, panic with each value kind or do nothing; the query subscription fails for some; expiry by advancing the simulated clock (50 ms, 1 s, 3 s durations).",
-		Oracle: "each query request delivered while the event was active gets exactly one response of the predicted kind (error for missing query or malformed payload); callbacks run under the C01 occupancy counter of the resource's group; after expiry the callback was invoked with nil exactly once, not before the configured duration, and no invocation with a request starts after it; a failed subscription yields exactly one nil call and no query event; after everything settled and the service was shut down no goroutine of the process is inside startQueryListener.",
-		Scen:   []ScenBudget{{"queryevent", 4000, 250000}, {"tierb", 300, 15000}},
+		Rule:        "queryevent scenario: call handlers start 1-4 query events per run on resources in shared groups; the peer sends query requests (valid, missing query, malformed JSON) at tape-chosen instants relative to expiry: well inside the window, buffered in the subscription channel when the timer fires, after the drain was requested, more than the channel holds at once; callbacks reply with model/collection/events/errors, panic with each value kind or do nothing; the query subscription fails for some; expiry by advancing the simulated clock (50 ms, 1 s, 3 s durations).",
+		Oracle:      "each query request delivered while the event was active gets exactly one response of the predicted kind (error for missing query or malformed payload); callbacks run under the C01 occupancy counter of the resource's group; after expiry the callback was invoked with nil exactly once, not before the configured duration, and no invocation with a request starts after it; a failed subscription yields exactly one nil call and no query event; after everything settled and the service was shut down no goroutine of the process is inside startQueryListener.",
+		Scen:        []ScenBudget{{"queryevent", 4000, 250000}, {"tierb", 300, 15000}},
 		Assumptions: []string{"tier A cannot observe Subscription.Drain on the zero-value subscription it hands out; the server-side effect of Drain is emulated at the instrumented point directly after the Drain call"},
 	})
 	addCheck(&CheckSpec{
 		Property: "C19", Level: "exploration", OwnsPanics: true,
-		Rule:   "sendreq scenario (tier A): resprot.SendRequest runs as a task against a scripted peer on the simulated clock: up to 5 messages with delays of 0 ms to 4 s drawn from valid results, error and resource responses, garbage, empty payload, timeout pre-responses and malformed pre-responses; messages that arrive back to back while the requester has not started waiting (inbox channel capacity 1, drop on full as nats.go does); failing subscribe or publish; nil, object and unmarshalable request values; 0-2 extension callbacks. Arrival instants and deadlines never coincide (10 ms grid versus 5 ms offsets), so timer and inbox are never ready together.",
-		Oracle: "a timed reference model walks the script and predicts the returned response (kind, error code, result, resource id), the exact simulated instant of return and the durations handed to the extension callbacks; all three must match; SendRequest must return within 80 simulated seconds.",
-		Scen:   []ScenBudget{{"sendreq", 6000, 400000}, {"tierb", 300, 15000}},
+		Rule:        "sendreq scenario (tier A): resprot.SendRequest runs as a task against a scripted peer on the simulated clock: up to 5 messages with delays of 0 ms to 4 s drawn from valid results, error and resource responses, garbage, empty payload, timeout pre-responses and malformed pre-responses; messages that arrive back to back while the requester has not started waiting (inbox channel capacity 1, drop on full as nats.go does); failing subscribe or publish; nil, object and unmarshalable request values; 0-2 extension callbacks. Arrival instants and deadlines never coincide (10 ms grid versus 5 ms offsets), so timer and inbox are never ready together.",
+		Oracle:      "a timed reference model walks the script and predicts the returned response (kind, error code, result, resource id), the exact simulated instant of return and the durations handed to the extension callbacks; all three must match; SendRequest must return within 80 simulated seconds.",
+		Scen:        []ScenBudget{{"sendreq", 6000, 400000}, {"tierb", 300, 15000}},
 		Assumptions: []string{"tier A hands out a zero-value subscription, so the release of the inbox subscription is not observable here"},
 	})
 	addCheck(&CheckSpec{
@@ -102,9 +102,9 @@ func init() {
 	})
 	addCheck(&CheckSpec{
 		Property: "C16", Level: "exploration", Race: true, OwnsPanics: false,
-		Rule:   "race scenario built with -race: one service with per-resource groups, a shared group and Parallel resources (handlers write per-group scratch memory without locks), requests and query requests injected by the scheduler, 1-2 producer goroutines calling With/WithResource/WithGroup/QueryEvent, Reset/ResetAll/TokenEvent/TokenEventWithID/TokenReset and emitting events from foreign goroutines, optionally store.Handler and store.QueryHandler over badgerstore + QueryStore on real BadgerDB with mutator goroutines, an index querier calling Query and Flush, the library's own MemLogger or StdLogger, Shutdown at tape-chosen steps and up to two Serve/Shutdown cycles. The harness is hidden from the detector: its synchronisation is wrapped in runtime.RaceDisable, its shared state lives in //go:norace functions without maps, and the scheduler goroutine never acquires from tasks.",
-		Oracle: "the Go race detector's error count must not rise during a run; each report is attributed to its run and classified by the top go-res frame of its two stacks; reports without a go-res frame are counted as third-party, reports entirely inside the harness are simulator trouble (exit 2), never violations.",
-		Scen:   []ScenBudget{{"race", 1500, 40000}},
+		Rule:        "race scenario built with -race: one service with per-resource groups, a shared group and Parallel resources (handlers write per-group scratch memory without locks), requests and query requests injected by the scheduler, 1-2 producer goroutines calling With/WithResource/WithGroup/QueryEvent, Reset/ResetAll/TokenEvent/TokenEventWithID/TokenReset and emitting events from foreign goroutines, optionally store.Handler and store.QueryHandler over badgerstore + QueryStore on real BadgerDB with mutator goroutines, an index querier calling Query and Flush, the library's own MemLogger or StdLogger, Shutdown at tape-chosen steps and up to two Serve/Shutdown cycles. The harness is hidden from the detector: its synchronisation is wrapped in runtime.RaceDisable, its shared state lives in //go:norace functions without maps, and the scheduler goroutine never acquires from tasks.",
+		Oracle:      "the Go race detector's error count must not rise during a run; each report is attributed to its run and classified by the top go-res frame of its two stacks; reports without a go-res frame are counted as third-party, reports entirely inside the harness are simulator trouble (exit 2), never violations.",
+		Scen:        []ScenBudget{{"race", 1500, 40000}},
 		Assumptions: []string{"the race detector only sees conflicting accesses of the interleavings actually executed; serial execution is compensated by hiding the scheduler's hand-offs, so any two conflicting accesses the library leaves unordered in an explored schedule are reported"},
 	})
 	addCheck(&CheckSpec{
